@@ -455,9 +455,7 @@ impl<'a> JoinOutput<'a> {
             branch_count,
             ..
         } = self;
-        let Config {
-            is_try, is_async, ..
-        } = self.config;
+        let Config { is_try, .. } = self.config;
 
         let extracted_results =
             self.extract_results_tuple(&step_results_name, result_pats, None, step_number);
@@ -496,7 +494,9 @@ impl<'a> JoinOutput<'a> {
                     }
                 }
             } else {
-                let current_step_results = if is_async {
+                // The joiner's output is already transposed here: the unwrapped values of the step are
+                // wrapped again, so the next step of every branch continues from a `Result` (sync and async).
+                let current_step_results = {
                     let mut index: usize = 0;
                     let ok_result_vars = (0..branch_count).filter_map(|branch_index| {
                         if self.is_branch_active_in_step(step_number, branch_index) {
@@ -517,8 +517,6 @@ impl<'a> JoinOutput<'a> {
                         let #step_results_name = (#(# ok_result_vars ),*);
                         #extracted_results
                     }
-                } else {
-                    extracted_results
                 };
 
                 quote! {
